@@ -3,6 +3,7 @@ package main
 // Translation of type-checked contract expressions (Go AST) into SMT terms.
 
 import (
+	"sync"
 	"fmt"
 	"go/ast"
 	"go/constant"
@@ -23,6 +24,7 @@ type Env struct {
 	st    *State // for assumptions produced during pure evaluation (validity facts)
 	info  *types.Info
 	depth int
+	scopePos token.Pos // atcall clauses: plain local names resolve as at this source position
 }
 
 func (en *Env) with(heap *Heap) *Env {
@@ -271,6 +273,18 @@ func (en *Env) evalIdent(n *ast.Ident) *SV {
 	// current value of a local (loop clauses)
 	if en.fr != nil {
 		if _, isVar := obj.(*types.Var); isVar && obj.Parent() != nil && obj.Parent() != obj.Pkg().Scope() {
+			if en.scopePos.IsValid() && !strings.Contains(n.Name, "__") {
+				// atcall clauses: the declaration visible at the call site
+				if v := scopedLocal(en.fr.fn, n.Name, en.scopePos); v != nil {
+					for _, l := range allAllocs(en.fr.fn) {
+						if l.Comment == n.Name && l.Pos() == v.Pos() {
+							if sv, ok := en.fr.vals[l]; ok && sv.P != nil {
+								return TV(en.load(sv.P))
+							}
+						}
+					}
+				}
+			}
 			if l := localByName(en.fr.fn, n.Name); l != nil {
 				if sv, ok := en.fr.vals[l]; ok && sv.P != nil {
 					return TV(en.load(sv.P))
@@ -794,6 +808,24 @@ func (en *Env) evalOverlayCall(fobj *types.Func, decl *ast.FuncDecl, n *ast.Call
 		return TV(App("fp.isNaN", SBool, en.evalT(n.Args[0])))
 	case "field":
 		xt := en.typeOf(n.Args[0])
+		if pt, ok := xt.Underlying().(*types.Pointer); ok {
+			// pointer to a struct: load of the named field from the heap
+			if pst, ok := pt.Elem().Underlying().(*types.Struct); ok {
+				tvp := en.info.Types[n.Args[1]]
+				if tvp.Value == nil {
+					unsupportedf("field() needs a constant field name")
+				}
+				fname := constant.StringVal(tvp.Value)
+				r := en.evalT(n.Args[0])
+				for i := 0; i < pst.NumFields(); i++ {
+					if pst.Field(i).Name() == fname {
+						_, c := x.fieldComp(en.heap, pt.Elem(), i)
+						return TV(Select(c, r))
+					}
+				}
+				unsupportedf("field %s not in %s", fname, xt)
+			}
+		}
 		stt, ok := xt.Underlying().(*types.Struct)
 		if !ok {
 			unsupportedf("field() on non-struct %s", xt)
@@ -840,6 +872,14 @@ func (en *Env) evalOverlayCall(fobj *types.Func, decl *ast.FuncDecl, n *ast.Call
 		return TV(Ite(Eq(sel, w.Int(0)), r.Get(v, base), Ite(Eq(sel, w.Int(1)), r.Get(v, base+2), r.Get(v, base+4))))
 	case "eqv":
 		return TV(Eq(en.evalT(n.Args[0]), en.evalT(n.Args[1])))
+	case "imhas":
+		d := x.compOf(en.heap, "IMD", ArraySort(SInt, ArraySort(w.IS, SBool)))
+		return TV(Select(Select(d, en.evalT(n.Args[0])), en.coerce(en.evalT(n.Args[1]), w.IS)))
+	case "imget":
+		ix := n.Fun.(*ast.IndexExpr)
+		vt := en.typeOf(ix.Index)
+		v := x.compOf(en.heap, "IMV", ArraySort(SInt, ArraySort(w.IS, w.SortOf(vt))))
+		return TV(Select(Select(v, en.evalT(n.Args[0])), en.coerce(en.evalT(n.Args[1]), w.IS)))
 	case "atoiOK":
 		w.declFun("atoi_err", "(Str) Iface")
 		return TV(Eq(App("atoi_err", SIfc, en.evalT(n.Args[0])), w.Zero(types.Universe.Lookup("error").Type())))
@@ -1060,6 +1100,18 @@ func (en *Env) modLocsOf(e ast.Expr) []modLoc {
 				vn, _, dn, _ := x.mapComps(en.heap, mt.Underlying().(*types.Map), mt)
 				m := en.evalT(n.Args[0])
 				return []modLoc{{vn, m}, {dn, m}}
+			case "imrow":
+				m := en.evalT(n.Args[0])
+				if pt, ok := en.typeOf(n.Args[0]).(*types.Pointer); ok {
+					if nt, ok := pt.Elem().(*types.Named); ok && nt.TypeArgs().Len() == 2 {
+						x.imVal = nt.TypeArgs().At(1)
+					}
+				}
+				if x.imVal == nil {
+					unsupportedf("imrow: value type of the map unknown")
+				}
+				x.intmapComps(en.heap, x.imVal)
+				return []modLoc{{"IMD", m}, {"IMV", m}}
 			case "old":
 				return en.with(en.old).modLocsOf(n.Args[0])
 			}
@@ -1153,6 +1205,9 @@ func (e *Engine) staticLocComps(ex ast.Expr, info *types.Info, add func(string))
 				k := typeKey(info.Types[n.Args[0]].Type)
 				add("MV!" + k)
 				add("MD!" + k)
+			case "imrow":
+				add("IMD")
+				add("IMV")
 			case "old":
 				e.staticLocComps(n.Args[0], info, add)
 			default:
@@ -1196,7 +1251,20 @@ func (en *Env) viewCall(fn *ssa.Function, vc *Contract, recv ast.Expr, n *ast.Ca
 	x := en.x
 	var args []*SV
 	if recv != nil {
-		args = append(args, en.eval(recv))
+		rv := en.eval(recv)
+		if rs := fn.Signature.Recv(); rs != nil {
+			if _, isPtr := rs.Type().Underlying().(*types.Pointer); !isPtr {
+				if pt, ok := en.typeOf(recv).Underlying().(*types.Pointer); ok {
+					// value method called through a pointer: the receiver is the pointee
+					if rv.P != nil {
+						rv = TV(en.load(rv.P))
+					} else {
+						rv = TV(en.load(&Ptr{Ref: x.svTerm(rv), Base: pt.Elem()}))
+					}
+				}
+			}
+		}
+		args = append(args, rv)
 	}
 	sig := fn.Signature
 	for i, a := range n.Args {
@@ -1219,6 +1287,10 @@ func (en *Env) viewCall(fn *ssa.Function, vc *Contract, recv ast.Expr, n *ast.Ca
 				return sub.eval(be.Y)
 			}
 		}
+	}
+	// no definition: the pure function is an uninterpreted function of its arguments
+	if len(vc.Ensures) == 0 {
+		return x.viewApp(fn, args)
 	}
 	unsupportedf("view contract of %s is not of the form `ensures result == E`", fn)
 	return nil
@@ -1263,4 +1335,60 @@ func (en *Env) evalFunCall(fobj *types.Func, decl *ast.FuncDecl, n *ast.CallExpr
 		args = append(args, en.coerceArg(t, sig.Params().At(i).Type()))
 	}
 	return TV(App(name, rs, args...))
+}
+
+
+var allocCache = map[*ssa.Function][]*ssa.Alloc{}
+var allocMu sync.Mutex
+
+// allAllocs: the named allocations of fn, stack and heap (variables whose address escapes).
+func allAllocs(fn *ssa.Function) []*ssa.Alloc {
+	allocMu.Lock()
+	defer allocMu.Unlock()
+	if a, ok := allocCache[fn]; ok {
+		return a
+	}
+	var out []*ssa.Alloc
+	for _, b := range fn.Blocks {
+		for _, in := range b.Instrs {
+			if a, ok := in.(*ssa.Alloc); ok && a.Comment != "" {
+				out = append(out, a)
+			}
+		}
+	}
+	allocCache[fn] = out
+	return out
+}
+
+
+// viewApp: application of a pure function known only through a view contract without
+// postconditions - an uninterpreted function of its arguments (the same one at Go call sites and in
+// specifications).
+func (x *Exec) viewApp(fn *ssa.Function, args []*SV) *SV {
+	var ts []*Term
+	sig := "("
+	for _, a := range args {
+		t := x.svTerm(a)
+		ts = append(ts, t)
+		sig += string(t.Sort) + " "
+	}
+	sig += ")"
+	mk := func(name string, t types.Type) *SV {
+		so := x.w.SortOf(t)
+		x.w.declFun(name, sig+" "+string(so))
+		return TV(App(name, so, ts...))
+	}
+	base := "vw!" + smtName(x.eng.fnKey(fn))
+	res := fn.Signature.Results()
+	if res.Len() == 0 {
+		return &SV{}
+	}
+	if res.Len() == 1 {
+		return mk(base, res.At(0).Type())
+	}
+	out := &SV{}
+	for i := 0; i < res.Len(); i++ {
+		out.Tuple = append(out.Tuple, mk(fmt.Sprintf("%s!%d", base, i), res.At(i).Type()))
+	}
+	return out
 }
